@@ -331,7 +331,9 @@ def _execute(p, s, res):
             if ret != ret_exp:
                 _violate(res, "return_value", si, {"returned": ret, "expected": ret_exp, "h": h, "T": T, "n": n})
             cr, cc = st["cursor"]
-            if cr >= ret_exp:
+            if not rows:
+                pass        # an empty array has no cell for cursor_pos to designate: not judged
+            elif cr >= ret_exp:
                 want = (T2 + cr - ret_exp, cc)
                 if (term.r, term.c) != want or term.pending:
                     _violate(res, "cursor_position", si, {"expected": list(want), "got": [term.r, term.c],
